@@ -62,22 +62,54 @@ inline std::vector<std::string> json_tokens(const std::string& s) {
   }
   return t;
 }
-// returns "" when equal, else a description of the first difference
-inline std::string readout_diff(const std::string& want, const std::string& got) {
+// A read-out is a flat JSON object with one field per line.  Fields whose key starts with "q_" are answers of query algorithms
+// over the content (estimates, bounds, ranks, quantiles): they are recorded for information and compared leniently (a difference
+// is counted, not reported as a violation), because a legitimate repair of a query algorithm changes them without any change to
+// what an image contains.  Every other field is content and must match (floating tokens within rel 1e-12).
+inline std::vector<std::pair<std::string, std::string>> readout_fields(const std::string& s) {
+  std::vector<std::pair<std::string, std::string>> out;
+  std::istringstream is(s); std::string line;
+  while (std::getline(is, line)) {
+    const size_t q1 = line.find('"'); if (q1 == std::string::npos) continue;
+    const size_t q2 = line.find('"', q1 + 1); if (q2 == std::string::npos || q2 + 1 >= line.size() || line[q2 + 1] != ':') continue;
+    std::string val = line.substr(q2 + 2);
+    if (!val.empty() && val.back() == ',') val.pop_back();
+    out.push_back({line.substr(q1 + 1, q2 - q1 - 1), val});
+  }
+  return out;
+}
+inline std::string value_diff(const std::string& want, const std::string& got) {
   if (want == got) return "";
   auto a = json_tokens(want), b = json_tokens(got);
-  std::string lastkey;
   for (size_t i = 0; i < a.size() && i < b.size(); ++i) {
-    if (i + 1 < a.size() && a[i + 1] == ":" && a[i][0] == '"') lastkey = a[i];
     if (a[i] == b[i]) continue;
     if (is_float_tok(a[i]) && is_float_tok(b[i])) {
       const double x = strtod(a[i].c_str(), nullptr), y = strtod(b[i].c_str(), nullptr);
       if (std::fabs(x - y) <= 1e-12 * std::max(std::fabs(x), std::fabs(y))) continue;
     }
-    return "field " + lastkey + ": recorded " + a[i].substr(0, 80) + " now " + b[i].substr(0, 80) + " (token " + std::to_string(i) + ")";
+    return "recorded " + a[i].substr(0, 60) + " now " + b[i].substr(0, 60) + " (element " + std::to_string(i / 2) + ")";
   }
-  if (a.size() != b.size()) return "read-out length differs after field " + lastkey + ": recorded " + std::to_string(a.size()) + " tokens, now " + std::to_string(b.size());
+  if (a.size() != b.size()) return "recorded " + std::to_string(a.size() / 2) + " elements, now " + std::to_string(b.size() / 2);
   return "";
+}
+// returns "" when all content fields agree, else a description of the first difference; *lenient gets the number of differing q_ fields
+inline std::string readout_diff(const std::string& want, const std::string& got, unsigned* lenient = nullptr) {
+  if (lenient) *lenient = 0;
+  if (want == got) return "";
+  auto a = readout_fields(want), b = readout_fields(got);
+  std::map<std::string, std::string> mb(b.begin(), b.end());
+  std::string first;
+  for (const auto& kv : a) {
+    const bool q = kv.first.compare(0, 2, "q_") == 0;
+    auto it = mb.find(kv.first);
+    std::string d;
+    if (it == mb.end()) d = "field missing now"; else { d = value_diff(kv.second, it->second); mb.erase(it); }
+    if (d.empty()) continue;
+    if (q) { if (lenient) ++*lenient; continue; }
+    if (first.empty()) first = "field \"" + kv.first + "\": " + d;
+  }
+  for (const auto& kv : mb) if (kv.first.compare(0, 2, "q_") != 0 && first.empty()) first = "field \"" + kv.first + "\" not in the recorded read-out";
+  return first;
 }
 
 // ------------------------------------------------------------------ helpers
